@@ -48,10 +48,10 @@ def all_templates(ctx):
     return out
 
 
-def check(ctx):
+def check(ctx, floors=True, only_literals=False):
     P = ctx.P
     tpls = all_templates(ctx)
-    ctx.count("templates in the generator", len(tpls), 80)
+    ctx.count("templates in the generator", len(tpls), 80 if floors else None)
     # C09.1 / .6 / .7 literal confinement
     where = {"std": [], "alloc": [], "doc": [], "codec": []}
     for b, node, items, kind in tpls:
@@ -85,6 +85,13 @@ def check(ctx):
                 strs.append((cshort(b["path"]), n["v"], n["sp"]))
     ctx.expect(not strs, "C09.1", "string-literal/std-path", strs[0][2] if strs else "", "no string literal spells a `std::` / `alloc::` path",
                "string literals with std/alloc paths: %s" % strs)
+    if only_literals:
+        for b, node, items, kind in tpls:
+            text = T.render(items)
+            m = re.match(r"^:: (\w+) ::", text)
+            if m and m.group(1) not in ("core",) and not text == ":: std":
+                ctx.bad("C09.3", "hard-coded-root/%s/%s" % (cshort(b["path"]), text), node["sp"], "template hard-codes the crate root `::%s`" % m.group(1))
+        return
     # C09.2 Std constructor
     ctors = []
     for c in (P.crates["scale_typegen"],):
